@@ -11,11 +11,7 @@ Definition leaf_size_guard (l : leaf) : bool :=
   | LFtyp n _ => lenN n =? 4
   | LFree n _ => lenN n =? 4
   | LMdat _ data => lenN data <? 18446744073709551600
-  | LTfdt v _ _ => v <=? 1
   | LTrun _ _ _ _ samples => lenN samples <? 4294967296
-  | LMvhd v _ _ _ _ _ _ _ _ => v <=? 1
-  | LTkhd v _ _ _ _ _ _ _ _ _ _ => v <=? 1
-  | LSidx v _ _ _ _ _ _ => v <=? 1
   | LStts _ _ es => lenN es <? 4294967296
   | LHdlr _ _ _ ht _ _ => lenN ht =? 4
   | _ => true
@@ -67,21 +63,13 @@ Proof.
   - lens. lia.
   - (* tfhd *) unfold wr_if. cbn [size_leaf].
     destruct (has flags 1), (has flags 2), (has flags 8), (has flags 16), (has flags 32); lens; lia.
-  - (* tfdt *) apply N.leb_le in G. cbn [size_leaf]. destruct (version =? 0) eqn:E.
-    + apply N.eqb_eq in E. subst. lens. lia.
-    + apply N.eqb_neq in E. assert (version = 1) by lia. subst. lens. lia.
+  - (* tfdt *) cbn [size_leaf]. destruct (version =? 0); lens; lia.
   - (* trun *) destruct (has flags 1 && (dataOffset =? 0)); [discriminate|]. injection Eb as <-.
     apply N.ltb_lt in G. cbn [size_leaf]. unfold trun_expected, wr_if, u32. rewrite N.mod_small by assumption.
     destruct (has flags 1), (has flags 4); lens; lia.
-  - (* mvhd *) apply N.leb_le in G. cbn [size_leaf]. destruct (version =? 0) eqn:E.
-    + apply N.eqb_eq in E. subst. lens. lia.
-    + apply N.eqb_neq in E. assert (version = 1) by lia. subst. lens. lia.
-  - (* tkhd *) apply N.leb_le in G. cbn [size_leaf]. destruct (version =? 0) eqn:E.
-    + apply N.eqb_eq in E. subst. lens. lia.
-    + apply N.eqb_neq in E. assert (version = 1) by lia. subst. lens. lia.
-  - (* sidx *) apply N.leb_le in G. cbn [size_leaf]. destruct (version =? 0) eqn:E.
-    + apply N.eqb_eq in E. subst. lens. lia.
-    + apply N.eqb_neq in E. assert (version = 1) by lia. subst. lens. lia.
+  - (* mvhd *) cbn [size_leaf]. destruct (version =? 1); lens; lia.
+  - (* tkhd *) cbn [size_leaf]. destruct (version =? 1); lens; lia.
+  - (* sidx *) cbn [size_leaf]. destruct (version =? 0); lens; lia.
   - lens. lia.
   - (* mdhd *) cbn [size_leaf]. destruct (version =? 1); lens; lia.
   - (* hdlr *) apply N.eqb_eq in G. cbn [size_leaf]. destruct lacksNull; lens; lia.
@@ -128,7 +116,8 @@ Fixpoint size_ok (t : mbox) : bool :=
   match t with
   | MLeaf _ l _ => leaf_size_guard l && (if leaf_large l then true else size_leaf l <? 4294967296)
   | MCont h cs => (lenN (h_name h) =? 4) && (8 + sumN (map size_box cs) <? 4294967296) && forallb size_ok cs
-  | MUnknown h p => (lenN (h_name h) =? 4) && (h_size h =? 8 + lenN p) && (h_size h <? 4294967296)
+  | MUnknown h p => (lenN (h_name h) =? 4) && (h_size h =? (if 8 <? h_len h then 16 else 8) + lenN p) &&
+                    (h_size h <? (if 8 <? h_len h then 18446744073709551616 else 4294967296))
   end.
 
 (* the property at one node: the encoder succeeds, writes Size() bytes, and the size field it writes first
@@ -245,7 +234,9 @@ Proof.
     apply andb_true_iff in Hs. destruct Hs as [Hs H2]. apply andb_true_iff in Hs. destruct Hs as [Hn H1].
     apply N.eqb_eq in H1, Hn. apply N.ltb_lt in H2.
     cbn [every]. split; [|exact I]. cbn [raw_box] in He. injection He as <-.
-    eexists. split; [reflexivity|]. cbn [size_box]. split.
+    eexists. split; [reflexivity|]. cbn [size_box]. destruct (8 <? h_len h); split.
+    + unfold enc_hdr_large. rewrite !lenN_app, !lenN_be_enc, Hn. lia.
+    + apply hdr_field_large; assumption.
     + unfold enc_hdr. rewrite !lenN_app, lenN_be_enc, Hn. lia.
     + apply hdr_field_compact. lia.
 Qed.
@@ -279,7 +270,7 @@ Proof.
   - apply andb_true_iff in H. destruct H as [H Hcs]. apply andb_true_iff in H. destruct H as [_ Hf].
     rewrite Hf. cbn [andb]. apply forallb_forall. intros c Hin.
     rewrite Forall_forall in IH. apply IH; [assumption|]. rewrite forallb_forall in Hcs. now apply Hcs.
-  - apply andb_true_iff in H. tauto.
+  - apply andb_true_iff in H. destruct H as [_ H]. destruct (8 <? h_len h); [reflexivity|exact H].
 Qed.
 
 Lemma size_ok_caps t : size_ok t = true -> caps_ok t = true.
@@ -291,7 +282,7 @@ Proof.
   - apply andb_true_iff in H. destruct H as [_ Hcs]. apply forallb_forall. intros c Hin.
     rewrite Forall_forall in IH. apply IH; [assumption|]. rewrite forallb_forall in Hcs. now apply Hcs.
   - apply andb_true_iff in H. destruct H as [H _]. apply andb_true_iff in H. destruct H as [_ H].
-    apply N.eqb_eq in H. apply N.leb_le. lia.
+    apply N.eqb_eq in H. apply N.leb_le. destruct (8 <? h_len h); lia.
 Qed.
 
 Lemma encode_ok t enc : size_ok t = true -> raw_box false t = Ok enc ->
